@@ -150,7 +150,7 @@ theorem linArgs_two (a a1 b1 a2 b2 n ta tb : List Char) (k : Nat) (va vb : Rat)
     exact parseRange_two a2 b2 ta tb va vb 0 1 oa2 ob2 h1 h2 ')' [] close_stops
   rw [hr]
   simp only []
-  rw [(nextIs_opt b2 ')' [] ob2 paren_close_graph.1 paren_close_graph.2).1]
+  rw [closeOk_opt b2 ob2]
   simp
 
 /-- the same with the count only: bounds 0 and 1 -/
@@ -174,7 +174,7 @@ theorem linArgs_one (a a1 b1 n : List Char) (k : Nat)
     rw [this]; rfl
   rw [hr]
   simp only []
-  rw [hcl.1]
+  rw [closeOk_opt b1 ob1]
   simp
 
 end Mpt.Iter
